@@ -464,3 +464,64 @@ func ManyMoves(t *rapid.T) oracle.State {
 	}
 	return oracle.State{Pos: p, Half: 0, Full: 60}
 }
+
+// QueenStar: a queen with long open lines, most of which end on an enemy man (a queen's reach
+// at its largest: up to 27 squares, up to 8 of them captures). Both kings stand off the lines;
+// the side with the queen is to move, the other king is not in check.
+func QueenStar(t *rapid.T) oracle.State {
+	for try := 0; ; try++ {
+		var p oracle.Pos
+		p.EP = -1
+		p.White = true
+		qf, qr := rapid.IntRange(2, 5).Draw(t, "qf"), rapid.IntRange(2, 5).Draw(t, "qr")
+		p.Sq[oracle.Sq(qf, qr)] = oracle.Queen
+		onRay := map[int]bool{oracle.Sq(qf, qr): true}
+		for _, d := range [][2]int{{1, 0}, {-1, 0}, {0, 1}, {0, -1}, {1, 1}, {1, -1}, {-1, 1}, {-1, -1}} {
+			// the ray runs to the rim, or stops early
+			var sqs []int
+			for f, r := qf+d[0], qr+d[1]; f >= 0 && f < 8 && r >= 0 && r < 8; f, r = f+d[0], r+d[1] {
+				sqs = append(sqs, oracle.Sq(f, r))
+			}
+			if len(sqs) == 0 {
+				continue
+			}
+			n := len(sqs)
+			if rapid.IntRange(0, 3).Draw(t, "short") == 0 {
+				n = rapid.IntRange(1, len(sqs)).Draw(t, "len")
+			}
+			for _, s := range sqs {
+				onRay[s] = true
+			}
+			if rapid.IntRange(0, 4).Draw(t, "target") > 0 {
+				end := sqs[n-1]
+				k := rapid.SampledFrom([]int8{oracle.Rook, oracle.Knight, oracle.Bishop, oracle.Pawn, oracle.Queen}).Draw(t, "kind")
+				if k == oracle.Pawn && (oracle.Rank(end) == 0 || oracle.Rank(end) == 7) {
+					k = oracle.Knight
+				}
+				p.Sq[end] = -k
+			}
+		}
+		var free []int
+		for s := 0; s < 64; s++ {
+			if !onRay[s] && p.Sq[s] == 0 {
+				free = append(free, s)
+			}
+		}
+		if len(free) < 2 {
+			continue
+		}
+		wk := free[rapid.IntRange(0, len(free)-1).Draw(t, "wk")]
+		bk := free[rapid.IntRange(0, len(free)-1).Draw(t, "bk")]
+		if df, dr := oracle.File(wk)-oracle.File(bk), oracle.Rank(wk)-oracle.Rank(bk); wk == bk || (df >= -1 && df <= 1 && dr >= -1 && dr <= 1) {
+			continue
+		}
+		p.Sq[wk], p.Sq[bk] = oracle.King, -oracle.King
+		if p.InCheck(false) {
+			continue
+		}
+		if rapid.Bool().Draw(t, "black") {
+			p = p.Mirror()
+		}
+		return oracle.State{Pos: p, Half: 0, Full: 30}
+	}
+}
